@@ -137,6 +137,24 @@ where
     }
 }
 
+#[cfg(feature = "verif-hooks")]
+impl<R> AsyncDispatcher<'_, R> {
+    /// Verification hook: waits for a running dispatch, then returns the
+    /// executed layout (systems per group per stage) and the number of
+    /// thread-local systems.
+    pub fn verif_shape(&mut self) -> (Vec<Vec<usize>>, usize) {
+        let shape = self
+            .data
+            .inner()
+            .stages
+            .iter()
+            .map(Stage::verif_group_sizes)
+            .collect();
+
+        (shape, self.thread_local.len())
+    }
+}
+
 enum Data<R> {
     Inner(Inner<R>),
     Rx(mpsc::Receiver<Inner<R>>),
